@@ -625,18 +625,39 @@ class HistRig(object):
             return self.cached_inv
         return self.T.inverse
 
+    def kw(self, act):
+        """the documented call keyword naming the FFTW planning effort of this call"""
+        e = act.get('e', '-')
+        if e in ('-', '', None) or self.conc['impl'] != 'pyfftw':
+            return {}
+        if self.conc['kind'] == 'ft':
+            return {'planning_effort': e}
+        return {'flags': ('FFTW_' + e.upper(),)}
+
     def do(self, act):
         op, x, o = act['op'], act['x'], act['o']
+        kw = self.kw(act)
+        eff = act.get('e', '-')
         if op == 'call':
-            res = self.T(self.objs[x])
+            res = self.T(self.objs[x], **kw)
             self.objs['q'], self.objs['r'] = self.objs['r'], res
         elif op == 'callip':
-            self.T(self.objs[x], out=self.objs[o])
+            self.T(self.objs[x], out=self.objs[o], **kw)
         elif op == 'inv':
-            res = self.inverse()(self.objs[x])
+            res = self.inverse()(self.objs[x], **kw)
             self.objs['q'], self.objs['r'] = self.objs['r'], res
         elif op == 'invip':
-            self.inverse()(self.objs[x], out=self.objs[o])
+            self.inverse()(self.objs[x], out=self.objs[o], **kw)
+        elif op == 'plan' and eff not in ('-', '', None):
+            self.T.init_fftw_plan(eff)
+        elif op == 'planinv':
+            if self.cached_inv is None:
+                self.cached_inv = self.T.inverse
+            self.conc = dict(self.conc, inv_mode='cached')      # the planned inverse object is the one used later
+            if eff in ('-', '', None):
+                self.cached_inv.init_fftw_plan()
+            else:
+                self.cached_inv.init_fftw_plan(eff)
         elif op == 'plan':
             self.T.init_fftw_plan()
         elif op == 'temps':
@@ -654,7 +675,7 @@ class HistRig(object):
 
 def hist_applicable(conc, steps):
     ops = {s['act']['op'] for s in steps}
-    if 'plan' in ops and conc['impl'] != 'pyfftw':
+    if ops & {'plan', 'planinv'} and conc['impl'] != 'pyfftw':
         return False          # init_fftw_plan is documented to raise for the NumPy back-end
     if 'temps' in ops and conc['kind'] != 'ft':
         return False          # only the continuous transform has temporaries
@@ -699,7 +720,7 @@ def task_hist(task):
             ev['post'] = post
             cls = hist_class(conc)
             opimpl = conc['impl']
-            if act['op'] in ('inv', 'invip'):
+            if act['op'] in ('inv', 'invip', 'planinv'):
                 cls += 'Inverse'
                 try:
                     opimpl = rig.inverse().impl       # DiscreteFourierTransform.inverse does not propagate impl
@@ -712,10 +733,13 @@ def task_hist(task):
                             mode='ip' if act['op'] in ('callip', 'invip') else 'oop', how=act['op'])
             ex['after'] = '+'.join(seen) if seen else 'fresh'
             ex['scribbled'] = 'yes' if 'scribble' in seen else 'no'
+            ex['effort'] = act.get('e', '-')
+            ex['planned'] = 'yes' if ('plan' in seen or 'planinv' in seen) else 'no'
+            ex['callno'] = 'later' if [o_ for o_ in seen if o_ in ('call', 'callip', 'inv', 'invip')] else 'first'
             res.append(obs(ev, where, ex, dict(conc, behaviour=[s['act'] for s in steps]),
                            ['hist', [s['act'] for s in steps][:len(seen) + 1], conc['kind'], conc['impl'],
                             conc['field'], conc['hcflag']],
-                           act['op'] not in ('plan', 'temps'), st.get('heap')))
+                           act['op'] not in ('plan', 'planinv', 'temps', 'scribble'), st.get('heap')))
             seen.append(act['op'])
             if ev.get('err') or post != st.get('heap', st.get('mirror', post)):
                 break           # the real objects left the specified behaviour: later steps are not comparable
@@ -1072,7 +1096,32 @@ def task_deriv(task):
     return res
 
 
-TASKS = {'deriv': task_deriv, 'dft': task_dft, 'ft': task_ft, 'gauss': task_gauss, 'hist': task_hist,
+def task_pyfftw_alias(task):
+    """odl.trafos.backends.pyfftw_call(a, a, ...): `array_out` "may be aliased with array_in" (documented)."""
+    from odl.trafos.backends import pyfftw_call
+    shape, axes, sign, eff, prec = tuple(task['shape']), tuple(task['axes']), task['sign'], task['effort'], task['prec']
+    case = mirror_case('dft', shape, axes, sign, False)
+    ev = {'k': 'tab', 't': 'dft', 'src': 'odl', 'shape': list(shape), 'axes': list(axes), 'sign': sign, 'hc': False,
+          'M': case['M']}
+    try:
+        cols = []
+        forget()
+        for u in unit_arrays(shape, CDTYPE[prec]):
+            a = u.copy()
+            pyfftw_call(a, a, direction='forward' if sign < 0 else 'backward', axes=axes, planning_effort=eff)
+            cols.append(a.ravel())
+            if task.get('fresh_each'):
+                forget()
+        ev['obs'] = project(np.array(cols).T, case['M'], 1.0, prec)
+    except Exception as e:
+        ev['err'] = errname(e)
+    where = {'class': 'pyfftw_call', 'impl': 'pyfftw', 'field': 'complex', 'halfcomplex': 'no', 'clause': 'aliased-arrays'}
+    ex = cls_extras(shape, axes, mode='ip')
+    ex['effort'] = eff
+    return [obs(ev, where, ex, dict(task), ['pyfftw-alias', list(shape), list(axes), sign, eff], True)]
+
+
+TASKS = {'pyfftw_alias': task_pyfftw_alias, 'deriv': task_deriv, 'dft': task_dft, 'ft': task_ft, 'gauss': task_gauss, 'hist': task_hist,
          'wave_rt': task_wave_rt, 'wave_adj': task_wave_adj, 'wave_lay': task_wave_lay}
 
 
